@@ -135,6 +135,21 @@ def run_impl(b, op, data):
         out = m.call(X, **kw)
     else:
         out = m.run(X, **kw)
+    # the caller reuses its input buffers: once the operation has returned, what it handed over is overwritten in place
+    # (a streaming loop with a preallocated array). Nothing the model returned or keeps may change with it.
+    import copy as _copy
+    out = _copy.deepcopy(out)
+
+    def scribble(a):
+        if isinstance(a, np.ndarray) and a.flags.writeable and a.dtype.kind in "fiu":
+            a[...] = 99 if a.dtype.kind != "f" else 12345.678
+        elif isinstance(a, (list, tuple)):
+            for e_ in a:
+                scribble(e_)
+        elif isinstance(a, dict):
+            for e_ in a.values():
+                scribble(e_)
+    scribble(X)
     states = {i: np.asarray(nd.state(), dtype=float) for nd, i in b.idx.items() if nd in b.mnodes}
     return out, subset, states
 
